@@ -106,12 +106,19 @@ def split_trace(ctx, raw_path, name):
     return ctx.write_ndjson(name, ev), ev, other
 
 
-def cfg_of_line(ev, idx):
-    """the configuration in force at event index idx (0-based)"""
+def cfg_event_of_line(ev, idx):
+    """the cfg event in force at event index idx (0-based): the configuration and, when the table behind the mapper has
+    changed since the muxes were built, the instance labels"""
     for i in range(idx, -1, -1):
         if ev[i].get("ev") == "cfg":
-            return ev[i]["cfg"]
+            return ev[i]
     return None
+
+
+def cfg_of_line(ev, idx):
+    """the configuration in force at event index idx (0-based)"""
+    e = cfg_event_of_line(ev, idx)
+    return e["cfg"] if e else None
 
 
 def validate_chunks(ctx, ev, name, chunk=4000, timeout=900, par=3):
@@ -127,7 +134,7 @@ def validate_chunks(ctx, ev, name, chunk=4000, timeout=900, par=3):
         part = ev[i:j]
         off = i
         if part[0].get("ev") != "cfg":
-            part = [{"ev": "cfg", "cfg": cfg_of_line(ev, i)}] + part
+            part = [dict(cfg_event_of_line(ev, i))] + part
             off = i - 1
         jobs.append((k, off, ctx.write_ndjson("%s_%d.ndjson" % (name, k), part)))
         i = j
